@@ -248,7 +248,12 @@ def run_hypothesis(test_builder, res: Result, shard: int, max_examples: int, shr
     except Failed as e:
         res.violation(last.get("case", e.case), last.get("message", e.message))
     except HypothesisException as e:
-        raise HarnessError(f"hypothesis: {type(e).__name__}: {e}")
+        if "case" in last and type(e).__name__ in ("FlakyFailure", "Flaky"):
+            # the oracle rejected this case on one execution and accepted it on the re-run: the code under test is not a
+            # function of its input (e.g. depends on solver-internal state). Each rejection was a real violation of that run.
+            res.violation(last["case"], "[not reproducible on immediate re-run] " + str(last["message"]))
+        else:
+            raise HarnessError(f"hypothesis: {type(e).__name__}: {e}")
     except Exception as e:
         # an exception from the code under test that the property did not turn into fail(): treat as a violation of
         # "no internal error" only if the property module said so by calling fail; otherwise it is a harness problem
